@@ -177,7 +177,7 @@ pub fn run(sut: &dyn Sut, tier: Tier) -> ! {
         run.finish(&stats);
     }
     let rounds = tier.pick(1, 8);
-    let n = tier.pick(320, 1600);
+    let n = tier.pick(640, 1600);
     for r in 0..rounds {
         if run_round(&C02(tier), sut, &mut run, &mut stats, r as u64 + 1, n, (150, 900)) {
             break;
